@@ -542,7 +542,7 @@ impl Engine for C10 {
     }
     fn runs(&self, tier: Tier) -> u64 {
         match tier {
-            Tier::Quick => 2400,
+            Tier::Quick => 6000,
             Tier::Thorough => 200_000,
         }
     }
